@@ -241,6 +241,19 @@ def cases(sh):
     enum = None
     for ctl in CTRLS:
         add("Type1 ctl .%s" % ctl.lower(), sh.type1(sh.t2_name("tstr"), (ctl, (b.mk("Type2::UintValue", value=3), "3"))))
+    # every kind of target x operator x controller: the text between them must keep the three tokens apart (`"abc".size3` is the control
+    # `.size3`, `1.plus2` a malformed number)
+    targets = {"name": lambda: sh.t2_name("tstr"), "uint": lambda: (b.mk("Type2::UintValue", value=1), "1"),
+               "text": lambda: (b.mk("Type2::TextValue", value=("str", "abc")), '"abc"'), "float": lambda: (b.mk("Type2::FloatValue", value=1.5), "1.5"),
+               "paren": lambda: (b.mk("Type2::ParenthesizedType", pt=sh.type_(sh.type1(sh.t2_name("a")))[0]), "(a)")}
+    controllers = {"uint": lambda: (b.mk("Type2::UintValue", value=3), "3"), "name": lambda: sh.t2_name("b"),
+                   "text": lambda: (b.mk("Type2::TextValue", value=("str", "y")), '"y"')}
+    for tn, tv in targets.items():
+        for opn in ("..", "...", "SIZE", "CAT", "PLUS"):
+            for cn, cvv in controllers.items():
+                if tn == "name" and cn == "uint" and opn in ("SIZE",):
+                    continue        # the shape above
+                add("Type1 %s target %s %s controller" % (tn, opn if opn.startswith(".") else "." + opn.lower(), cn), sh.type1(tv(), (opn, cvv())))
     # ---- Type choices
     add("Type 1 choice", sh.type_(sh.type1(sh.t2_name("a"))))
     add("Type 2 choices", sh.type_(sh.type1(sh.t2_name("a")), sh.type1(sh.t2_name("b"))))
